@@ -1,7 +1,8 @@
 import MtailVerif.Model.Ast
 /-! Model of the formatter (internal/runtime/compiler/parser/unparser.go): AST to program text.
     Number formatting is a parameter (`fmtFloat` = strconv.FormatFloat(f,'g',-1,64)); durations are
-    printed by `fmtDur` (time.Duration.String). -/
+    printed by `fmtDur` (`durationLiteral`: time.Duration.String from a millisecond up, a fraction of
+    a second below). -/
 namespace MtailVerif.Unparse
 open MtailVerif MtailVerif.Ast
 
@@ -78,12 +79,27 @@ def bytesToString (b : Bytes) : String := String.fromUTF8! ⟨b.toArray⟩
 
 def quote (s : String) : String := "\"" ++ replaceAll s '"' "\\\"" ++ "\""
 
+/-- the words the lexer does not return as an identifier: keywords and builtin names -/
+def reservedWords : List String :=
+  ["after", "as", "buckets", "by", "const", "counter", "def", "del", "else", "gauge", "hidden", "histogram",
+   "limit", "next", "otherwise", "stop", "text", "timer",
+   "bool", "float", "getfilename", "int", "len", "settime", "string", "strptime", "strtol", "subst", "timestamp", "tolower"]
+
+/-- does the text lex as one identifier (a letter, then letters, digits and `_`; ASCII here)? -/
+def isIdentifier (s : String) : Bool :=
+  match s.toList with
+  | [] => false
+  | c :: cs => c.isAlpha && cs.all (fun x => x.isAlphanum || x == '_') && !reservedWords.contains s
+
+/-- `keyName`: a label key is written bare when it reads back as an identifier, quoted otherwise -/
+def keyName (k : String) : String := if isIdentifier k then k else quote k
+
 def kindText : Nat → String
   | 1 => "counter " | 2 => "gauge " | 3 => "timer " | 4 => "text " | 5 => "histogram " | _ => ""
 
 def declText (f : Fmt) (d : Decl) : String :=
   (if d.hidden then "hidden " else "") ++ kindText d.kind ++ d.name ++
-  (if d.keys.isEmpty then "" else " by " ++ ", ".intercalate d.keys) ++
+  (if d.keys.isEmpty then "" else " by " ++ ", ".intercalate (d.keys.map keyName)) ++
   (if d.exported = "" then "" else " as " ++ quote d.exported) ++
   (if d.limit > 0 then " limit " ++ toString d.limit else "") ++
   (if d.buckets.isEmpty then "" else " buckets " ++ ", ".intercalate (d.buckets.map f.fmtFloat))
